@@ -100,10 +100,12 @@ def finish(spec, res, acc, nontrivial, sample_extra=None, instruments=(), rows_j
         cols = {"flux": common.FLUX_COLS, "growth": common.GROWTH_COLS}.get(f["table"])
         col = cols[f["col"]] if cols and 0 <= f["col"] < len(cols) else f["col"]
         acc.add("reported-table-differs-from-step-output",
-                f"{mm} rows of the daily tables returned to the user differ from what the time step wrote, first at "
+                f"{mm} rows of the daily tables returned to the user differ from what the time step wrote "
+                f"({getattr(tr, 'ghost_rows', 0)} of them on days no step was executed for), first at "
                 f"step {f['t']} column {col}: step wrote {f['step_value']!r}, table reports {f['reported']!r}",
                 dict(f, column=col), dict(table=f["table"]))
     acc.cov["table_rows_reconciled"] += 3 * len(tr.steps) if hasattr(tr, "table_mismatch") else 0
+    acc.cov["table_rows_unexecuted_checked"] += 3 * getattr(tr, "rows_unexecuted", 0)
     out = dict(violations=acc.v, cov=dict(acc.cov), n_violations=acc.total)
     out["cov"]["executions"] = out["cov"].get("executions", 0) + 1
     out["cov"]["steps"] = len(tr.steps)
